@@ -132,10 +132,11 @@ def _walk(obj, path, out, memo):  # noqa: C901
         _walk(dict(obj.attrs), path + ".attrs", out, memo)
         return
     if isinstance(obj, pd.DataFrame):
-        out[path] = f"DataFrame:{obj.shape}:{[str(c) for c in obj.columns]}"
+        out[path] = f"DataFrame:{obj.shape}:{[str(c) for c in obj.columns]}:{[str(t) for t in obj.dtypes]}"
         out[path + ".index"] = _array_leaf(obj.index.to_numpy())
-        for i, c in enumerate(obj.columns):
-            out[f"{path}[{c!r}#{i}]"] = _array_leaf(obj.iloc[:, i].to_numpy())
+        if obj.shape[0] and obj.shape[1]:
+            for i, c in enumerate(obj.columns):
+                out[f"{path}[{c!r}#{i}]"] = _array_leaf(obj.iloc[:, i].to_numpy())
         return
     if isinstance(obj, pd.Series):
         out[path] = f"Series:{obj.name!r}:" + _array_leaf(obj.to_numpy())
